@@ -269,12 +269,88 @@ func newField(t *rapid.T, n int, objectOnly bool, existing []*j5sgen.Field, type
 
 func first(f *j5sgen.Field, _ string) *j5sgen.Field { return f }
 
+// derivedStems lists, for the package of file f, the stems X of its top-level
+// types named XRequest / XResponse (no method X yet) and XMessage (no topic
+// message X yet).
+func derivedStems(b *j5sgen.Bundle, f *j5sgen.File) (methods, messages []string) {
+	for _, p := range b.Packages {
+		mine := false
+		for _, pf := range p.Files {
+			if pf == f {
+				mine = true
+			}
+		}
+		if !mine {
+			continue
+		}
+		usedM, usedT := map[string]bool{}, map[string]bool{}
+		var names []string
+		for _, pf := range p.Files {
+			for _, d := range pf.Decls {
+				switch {
+				case d.Object != nil:
+					names = append(names, d.Object.Name)
+				case d.Oneof != nil:
+					names = append(names, d.Oneof.Name)
+				case d.Enum != nil:
+					names = append(names, d.Enum.Name)
+				case d.Service != nil:
+					for _, m := range d.Service.Methods {
+						usedM[m.Name] = true
+					}
+				case d.Topic != nil:
+					for _, m := range d.Topic.Messages {
+						usedT[m.Name] = true
+					}
+					for _, m := range append(append([]*j5sgen.TopicMessage{d.Topic.Request, d.Topic.Reply}, d.Topic.MoreRequests...), d.Topic.MoreReplies...) {
+						if m != nil {
+							usedT[m.Name] = true
+						}
+					}
+				case d.Entity != nil:
+					return nil, nil // entities derive services and topics of their own
+				}
+			}
+		}
+		seenM, seenT := map[string]bool{}, map[string]bool{}
+		for _, n := range names {
+			for _, suf := range []string{"Request", "Response"} {
+				if x := strings.TrimSuffix(n, suf); x != n && x != "" && !usedM[x] && !seenM[x] {
+					seenM[x] = true
+					methods = append(methods, x)
+				}
+			}
+			if x := strings.TrimSuffix(n, "Message"); x != n && x != "" && !usedT[x] && !seenT[x] {
+				seenT[x] = true
+				messages = append(messages, x)
+			}
+		}
+	}
+	return methods, messages
+}
+
 func TestAppend(t *testing.T) {
 	r := vf.Start(t, prop, "append")
 	rapid.Check(t, func(t *rapid.T) {
 		o := j5sgen.DefaultOpts()
 		o.MaxPackages, o.MaxFiles = 2, 2
 		b, _ := j5sgen.Draw(t, o)
+		derivedPath := ""
+		if rapid.IntRange(0, 3).Draw(t, "derivedtypes") == 0 {
+			// user types named like the messages a later service / topic derives, and
+			// a field that refers to each
+			p := b.Packages[rapid.IntRange(0, len(b.Packages)-1).Draw(t, "derivedpkg")]
+			f := p.Files[rapid.IntRange(0, len(p.Files)-1).Draw(t, "derivedfile")]
+			user := &j5sgen.Object{Name: "UsesDerivedNames"}
+			for _, n := range []string{"RunAppendedResponse", "RunAppendedRequest", "NotifyAppendedMessage"} {
+				if rapid.Bool().Draw(t, "derivedtype") {
+					f.Decls = append(f.Decls, &j5sgen.Decl{Object: &j5sgen.Object{Name: n, Fields: []*j5sgen.Field{{Name: "note", Type: &j5sgen.Type{Kind: "string"}}}}})
+					user.Fields = append(user.Fields, &j5sgen.Field{Name: lowerFirst(n), Type: &j5sgen.Type{Kind: "object", Ref: &j5sgen.Ref{Package: p.Name, Name: n}}})
+				}
+			}
+			f.Decls = append(f.Decls, &j5sgen.Decl{Object: user})
+			derivedPath = f.Path
+		}
 		c := histCase{Steps: []*j5sgen.Bundle{b}}
 		nEdits := rapid.IntRange(1, 5).Draw(t, "nedits")
 		nt := false
@@ -284,10 +360,44 @@ func TestAppend(t *testing.T) {
 			next := clone(cur)
 			tg := targets(next)
 			tt := tg[rapid.IntRange(0, len(tg)-1).Draw(t, "target")]
+			if derivedPath != "" && rapid.IntRange(0, 2).Draw(t, "appendtoderived") == 0 {
+				for _, x := range tg {
+					if x.file != nil && x.file.Path == derivedPath {
+						tt = x
+					}
+				}
+			}
 			switch {
 			case tt.file != nil:
 				name := fmt.Sprintf("Appended%s", []string{"Alpha", "Beta", "Gamma", "Delta", "Epsilon"}[i])
-				switch rapid.IntRange(0, 2).Draw(t, "newdecl") {
+				switch rapid.IntRange(0, 4).Draw(t, "newdecl") {
+				case 3, 4:
+					// a service or a topic: its messages are declared in the .service /
+					// .topic sub-package under names derived from the method / message
+					// name - which may be the name a user type of the package already has
+					stemS, stemT := derivedStems(next, tt.file)
+					mname, tname := name, name
+					if len(stemS) > 0 && rapid.Bool().Draw(t, "methodlikename") {
+						mname = rapid.SampledFrom(stemS).Draw(t, "methodstem")
+						cls = append(cls, "name:derives-existing-type-name")
+						nt = true
+					}
+					if len(stemT) > 0 && rapid.Bool().Draw(t, "topiclikename") {
+						tname = rapid.SampledFrom(stemT).Draw(t, "topicstem")
+						cls = append(cls, "name:derives-existing-type-name")
+						nt = true
+					}
+					if rapid.Bool().Draw(t, "newsvc") {
+						tt.file.Decls = append(tt.file.Decls, &j5sgen.Decl{Service: &j5sgen.Service{Name: name, Methods: []*j5sgen.Method{{
+							Name: mname, HTTPMethod: "POST", HTTPPath: "/appended/" + strings.ToLower(name),
+							Request:  []*j5sgen.Field{{Name: "note", Type: &j5sgen.Type{Kind: "string"}}},
+							Response: []*j5sgen.Field{{Name: "done", Type: &j5sgen.Type{Kind: "bool"}}},
+						}}}})
+					} else {
+						tt.file.Decls = append(tt.file.Decls, &j5sgen.Decl{Topic: &j5sgen.Topic{Name: name, Kind: "publish", Messages: []*j5sgen.TopicMessage{{
+							Name: tname, Fields: []*j5sgen.Field{{Name: "note", Type: &j5sgen.Type{Kind: "string"}}},
+						}}}})
+					}
 				case 0:
 					tt.file.Decls = append(tt.file.Decls, &j5sgen.Decl{Object: &j5sgen.Object{Name: name, Fields: []*j5sgen.Field{first(newField(t, 0, false, nil, nil))}}})
 				case 1:
